@@ -97,6 +97,7 @@ pub fn determinism_precheck(spec: &CheckSpec, seed: u64, thorough: bool) -> Resu
       let s = run_seed(seed, spec.property, &cname, idx);
       let mut a1 = Acc::default(); let mut a2 = Acc::default();
       let r1 = camp.run(s, idx, &mut Ctx { thorough, want_sample: false, acc: &mut a1 });
+      PROGRESS.fetch_add(1, std::sync::atomic::Ordering::Relaxed);
       let r2 = camp.run(s, idx, &mut Ctx { thorough, want_sample: false, acc: &mut a2 });
       if r1.case_hash != r2.case_hash { return Err(format!("campaign {} run {} (seed {}) does not generate the same case twice", cname, idx, s)); }
       if r1.digest != r2.digest || r1.failure.is_some() != r2.failure.is_some() || r1.state_hashes != r2.state_hashes || a1.counters != a2.counters || a1.faults != a2.faults {
@@ -147,6 +148,7 @@ fn digest_only(spec: &CheckSpec, seed: u64, threads: usize, runs: u64) -> u64 {
             let i = next.fetch_add(1, Ordering::Relaxed);
             if i >= runs { break; }
             let r = camp.run(run_seed(seed, spec.property, &cname, i), i, &mut Ctx { thorough: false, want_sample: false, acc: &mut acc });
+            PROGRESS.fetch_add(1, Ordering::Relaxed);
             let mut sh = 0u64; for h in &r.state_hashes { sh = sh.wrapping_add(*h); }
             d = d.wrapping_add(mix(i, r.digest ^ r.case_hash ^ sh ^ (r.failure.is_some() as u64) ^ ((r.nontrivial as u64) << 1)));
           }
